@@ -37,8 +37,13 @@ type Conn struct {
 
 func (c *Conn) Write(b []byte) (int, error) {
 	c.NWrite++
+	n := len(b)
 	if c.T != nil {
 		c.T.Use(b, "conn.Write")
+		if c.T.Guarded() && c.T.InFreed(b) {
+			// guard mode: reported by Use; the freed bytes cannot be read, nothing is appended to the wire
+			b = nil
+		}
 	}
 	if c.OnWrite != nil {
 		c.OnWrite(b)
@@ -52,8 +57,8 @@ func (c *Conn) Write(b []byte) (int, error) {
 		return 0, ErrInjected
 	}
 	c.Wire = append(c.Wire, b...)
-	c.Writes = append(c.Writes, len(b))
-	return len(b), nil
+	c.Writes = append(c.Writes, n)
+	return n, nil
 }
 
 func (c *Conn) Read(b []byte) (int, error)         { return 0, io.EOF }
